@@ -28,6 +28,35 @@ let () =
         print_string (String.concat " " (List.map string_of_z
           [ Isa.f_op w; rd; f3; rs1; rs2; f7; Isa.immf_i rs2 f7; Isa.immf_s rd f7; Isa.immf_b rd f7;
             Isa.immf_u f3 rs1 rs2 f7; Isa.immf_j f3 rs1 rs2 f7 ]) ^ "\n")
+      | "exec" :: vs :: clo :: jlo :: chi :: a :: nsteps :: dom0 :: rest ->
+        (* exec <variant 0..4> <code_lo> <jit_lo> <code_hi> <A> <nsteps> <dom> w <words...> r <reg=val ...>
+           memory = the words at A; data/stack/shadow regions empty; halt address = -1 *)
+        let variant = (match vs with "0" -> Machine.VBase | "1" -> Machine.VTramp | "2" -> Machine.VRimiSS
+                                   | "3" -> Machine.VRimiFull | _ -> Machine.VFixer) in
+        let z = z_of_string in
+        let rec split_ws_r acc l = (match l with
+            | "r" :: tl -> (List.rev acc, tl) | x :: tl -> split_ws_r (x :: acc) tl | [] -> (List.rev acc, [])) in
+        let (ws, rs) = (match rest with "w" :: tl -> split_ws_r [] tl | _ -> ([], [])) in
+        let m1 = z_of_small (-1) in
+        let lay = Machine.make_layout (z clo) (z jlo) (z chi) Z0 Z0 Z0 Z0 Z0 Z0 m1 in
+        let four = z_of_small 4 in
+        let (mem, _) = List.fold_left (fun (m, ad) w ->
+            (Machine.store_bytes m ad (Datatypes.S (Datatypes.S (Datatypes.S (Datatypes.S Datatypes.O)))) (z w),
+             BinInt.Z.add ad four)) (Machine.empty_map, z a) ws in
+        let s0 = Machine.make_state (z a) Machine.empty_map mem (z dom0) [] in
+        let s0 = List.fold_left (fun s rv ->
+            (match String.split_on_char '=' rv with
+             | [r; v] -> Machine.rset s (z r) (z v) | _ -> s)) s0 rs in
+        let rec nat_of_int n = if n <= 0 then Datatypes.O else Datatypes.S (nat_of_int (n - 1)) in
+        let (o, cnt) = Machine.run variant lay (nat_of_int (int_of_string nsteps)) s0 in
+        let (tag, st) = (match o with
+            | Machine.Next s -> ("next", s) | Machine.Halt s -> ("halt", s) | Machine.Trap s -> ("trap", s)
+            | Machine.Fault (_, s) -> ("fault", s)) in
+        let regs = String.concat " " (List.init 32 (fun i -> string_of_z (Machine.rget st (z_of_small i)))) in
+        let rec nat_to_int n = (match n with Datatypes.O -> 0 | Datatypes.S k -> 1 + nat_to_int k) in
+        print_string (Printf.sprintf "%s %d %s %s | %s | %s\n" tag (nat_to_int cnt) (string_of_z (Machine.st_pc st))
+                        (string_of_z (Machine.st_dom st)) regs
+                        (String.concat " " (List.map string_of_z (Machine.st_cfi st))))
       | _ -> print_string "BAD\n")
     done
   with End_of_file -> ()
